@@ -49,7 +49,8 @@ var watchModes = []string{"healthy", "never-connects", "connect-hangs", "closes"
 func runRelist(c *Ctx, r *relistRun) {
 	r.deadlock = sched.Bubble(c.T, func() {
 		srv := fakeapi.New()
-		srv.ShuffleLists = r.seed%2 == 1 // every second run: the items of each list in another order
+		srv.ShuffleLists = r.seed%4 == 1 // the items of each list in another order
+		srv.StaleDuplicates = r.seed%4 == 3 // lists that name a key twice, the older version first
 		srv.ListLatency = func(int) time.Duration { return r.latency }
 		srv.WatchBehave = func(n int, rv string) string {
 			switch r.mode {
@@ -265,7 +266,7 @@ func randomPhase(c *Ctx, mode string) []wstep {
 			case "overflow":
 				steps = append(steps, wstep{Kind: 14, K: 220 + c.Rng.Intn(100)})
 			case "frames":
-				steps = append(steps, wstep{Kind: []int{4, 5, 9, 16}[c.Rng.Intn(4)]})
+				steps = append(steps, wstep{Kind: []int{4, 5, 9, 16, 17}[c.Rng.Intn(5)]})
 			case "closes", "mixed":
 				steps = append(steps, wstep{Kind: 2})
 			default:
@@ -529,6 +530,32 @@ func runC03(c *Ctx) {
 			if len(lb) != 1 {
 				problems = append(problems, fmt.Sprintf("the controller built with the default / a very long refresh period listed %d times in 9 s", len(lb)))
 			}
+			// controllers created from one builder are independent: closing the
+			// first leaves the second running and current, and the builder can
+			// create a third one afterwards
+			cA.Close()
+			pert.Barrier()
+			if isClosed(cC.Done()) {
+				problems = append(problems, "closing a controller stopped another controller created from the same builder")
+			} else {
+				srvC.Set(2, 1, labSets[2], 1)
+				time.Sleep(100 * time.Millisecond)
+				pert.Barrier()
+				if got, _ := cacheIDs(cC.Cache()); !sameInts(got, objIDs(srvC.Objects())) {
+					problems = append(problems, fmt.Sprintf("after its sibling from the same builder was closed a controller holds %v, its server %v", got, objIDs(srvC.Objects())))
+				}
+			}
+			cF, errF := bA.Create()
+			if errF != nil {
+				problems = append(problems, fmt.Sprintf("Create on a builder whose first controller was closed failed: %v", errF))
+			} else {
+				time.Sleep(200 * time.Millisecond)
+				pert.Barrier()
+				if !isClosed(cF.Ready()) || isClosed(cF.Done()) {
+					problems = append(problems, fmt.Sprintf("a controller created from a builder whose first controller was closed: ready %v, done %v", isClosed(cF.Ready()), isClosed(cF.Done())))
+				}
+				cF.Close()
+			}
 		})
 		runs++
 		c.Rep.Evaluations++
@@ -656,6 +683,7 @@ func runFail(c *Ctx, r *failRun, seed int64, level int) {
 				applyStep(srv, wstep{Kind: 5}, new(int))
 				applyStep(srv, wstep{Kind: 9}, new(int))
 				applyStep(srv, wstep{Kind: 16}, new(int))
+				applyStep(srv, wstep{Kind: 17}, new(int))
 			}
 			ct.pert.Barrier()
 		}
